@@ -288,7 +288,7 @@ var c09MinimalOpts = []struct {
 	{17, []byte{0, 0, 0, 9}}, {18, []byte{1}}, {23, make([]byte, 16)}, {24, []byte{1, 'a', 0}}, {25, make([]byte, 12)}, {26, make([]byte, 25)},
 	{32, []byte{0, 0, 2, 88}}, {37, []byte{0, 0, 0, 9, 1}}, {39, []byte{0, 1, 'a', 0}}, {56, append([]byte{0, 1, 0, 16}, make([]byte, 16)...)},
 	{59, []byte{'u'}}, {60, []byte{0, 1, 'x'}}, {61, []byte{0, 7}}, {62, []byte{1, 2, 1}}, {79, []byte{0, 1, 2, 3, 4, 5, 6, 7}},
-	{88, make([]byte, 16)}, {97, nil}, {99, []byte{0, 0, 0, 0}}, {135, []byte{2, 35}},
+	{88, make([]byte, 16)}, {97, nil}, {98, append([]byte{24, 64, 8, 0}, make([]byte, 20)...)}, {99, []byte{0, 0, 0, 0}}, {135, []byte{2, 35}},
 }
 
 var c09Families = []c09Family{
@@ -472,6 +472,24 @@ var c09Families = []c09Family{
 			b = append(b, rep(unit, max(len(unit), n-4))...)
 		}
 		return b
+	}},
+	{Name: "v6/container-list-repeated-known", V6: true, Variants: 2 * 7 * len(c09MinimalOpts), MaxN: 16384, Make: func(n, variant int) []byte {
+		// the same inside every container option: ONE option type (every type in turn) repeated as often as fits
+		// after a long run of other options, or alternating with them — a container's own option parser (and what
+		// it does per repeated sub-option) is measured like the top-level one
+		u := c09MinimalOpts[variant%len(c09MinimalOpts)]
+		c := c09Containers[variant/len(c09MinimalOpts)%7]
+		unit := v6opt(u.code, u.payload)
+		other := []byte{0, 200, 0, 0}
+		room := min(n-12, 65535) - len(c.Hdr)
+		body := append([]byte{}, c.Hdr...)
+		if variant/len(c09MinimalOpts)/7%2 == 0 {
+			body = append(body, rep(other, room/2)...)
+			body = append(body, rep(unit, max(len(unit), room-room/2))...)
+		} else {
+			body = append(body, rep(append(append([]byte{}, other...), unit...), max(len(unit)+4, room))...)
+		}
+		return append([]byte{1, 1, 2, 3}, v6opt(c.Code, clip64k(body))...)
 	}},
 	{Name: "v6/empty-items", V6: true, Make: func(n, variant int) []byte {
 		code := []uint16{15, 60, 16}[variant%3]
